@@ -336,7 +336,7 @@ theorem divide_near_spec (δ : Rat) (hδ : eps < δ) (hb : 0 ≤ Cb)
     rw [if_pos h0, if_neg hb0, min_eq_left this]; simpa using ht
 
 
-/-! ### The soft-light defect (before repair `98331e4`) -/
+/-! ### The soft-light defect (before repair `d8a56a1`) -/
 
 /-- Before the repair `D` was selected by `Cs ≤ 0.25`: for a dark backdrop and `Cs = 1` the code
 returned `√Cb`; the published value is the polynomial.  Witness `Cb = 1/16` (a rational square):
